@@ -2239,6 +2239,74 @@ func c07OrderPrelude(t *testing.T, out *vfOut, r *vfRand, kind string, mem uint,
 	h.finish(out, c0, map[string]any{"kind": kind, "mem_size": mem, "script": script})
 }
 
+// c07ConcurrentAdds: four goroutines record queries at the same time (no
+// schedule is forced); afterwards the buffer must be in stamp order.  Only an
+// inversion is a failure (a witness); a run without one proves nothing and
+// nothing else is judged.  The first records go to the model as a history.
+func c07ConcurrentAdds(t *testing.T, out *vfOut, r *vfRand) {
+	dir, err := os.MkdirTemp(t.TempDir(), "cc")
+	if err != nil {
+		t.Fatal(err)
+	}
+	defer os.RemoveAll(dir)
+	h := c07NewH(t, r, dir)
+	const G = 4
+	n := out.Scale(2000, 8000)
+	h.newLog(uint(G*n+10), false, true)
+	c0 := h.coqConfig()
+	l := h.l
+	start := make(chan struct{})
+	done := make(chan struct{}, G)
+	for g := 0; g < G; g++ {
+		go func(g int) {
+			<-start
+			for i := 0; i < n; i++ {
+				host := c07Hosts[(g+i)%len(c07Hosts)]
+				q := &dns.Msg{Question: []dns.Question{{Name: host + ".", Qtype: dns.TypeA, Qclass: dns.ClassINET}}}
+				l.Add(&AddParams{Question: q, Result: &filtering.Result{}, ClientIP: net.ParseIP(c07IPs[g%len(c07IPs)]), Upstream: "u"})
+			}
+			done <- struct{}{}
+		}(g)
+	}
+	close(start)
+	for g := 0; g < G; g++ {
+		<-done
+	}
+	var ents []*logEntry
+	func() {
+		l.bufferLock.Lock()
+		defer l.bufferLock.Unlock()
+		l.buffer.Range(func(e *logEntry) bool { ents = append(ents, e); return true })
+	}()
+	if len(ents) != G*n {
+		h.fail("complete-once-ordered", "%d queries recorded by %d goroutines, the buffer holds %d", G*n, G, len(ents))
+	}
+	inv := 0
+	for i := 1; i < len(ents); i++ {
+		if d := ents[i-1].Time.UnixNano() - ents[i].Time.UnixNano(); d > 0 {
+			if inv == 0 {
+				h.fail("stamp-order", "%d goroutines recording at the same time: the record at position %d of the buffer (%s from %s) carries a stamp %d ns older than the record pushed before it (%s from %s): push order is not stamp order",
+					G, i, ents[i].QHost, ents[i].IP, d, ents[i-1].QHost, ents[i-1].IP)
+			}
+			inv++
+		}
+	}
+	h.trace("%d goroutines x %d Adds; inversions of stamp order in the buffer: %d", G, n, inv)
+	for i := 0; i < len(ents) && i < 40; i++ {
+		e := ents[i]
+		b, _ := json.Marshal(e)
+		h.steps = append(h.steps, vfApp("C07.HOp", vfApp("OAdd", vfApp("C07.E", vfN(uint64(i+1)), vfZ(e.Time.UnixNano()), vfZ(int64(len(b))),
+			vfBytes(e.QHost), vfBytes(e.IP.String()), vfBytes(e.ClientID), vfZ(int64(e.Result.Reason)), vfBool(e.Result.IsFiltered)))))
+	}
+	h.cls["concurrent-adds"] = true
+	c := vfCase{
+		Coq: c07CHist(c0, h.steps), Nontrivial: true, MonitorOK: len(h.msgs) == 0, MonitorMsg: strings.Join(h.msgs, "; "), FindingKey: h.key,
+		Desc: map[string]any{"kind": "concurrent-adds", "goroutines": G, "adds_each": n, "trace": h.desc},
+		Classes: []string{"concurrent-adds"},
+	}
+	out.Emit(c)
+}
+
 func TestVerifC07(t *testing.T) {
 	out := vfOpen(t, "C07")
 	defer out.Close()
@@ -2307,6 +2375,9 @@ func TestVerifC07(t *testing.T) {
 		if !c07Stuck {
 			c07OrderPrelude(t, out, vfNewRand(31), sc.kind, sc.mem, sc.script)
 		}
+	}
+	if !c07Stuck {
+		c07ConcurrentAdds(t, out, vfNewRand(41))
 	}
 	// ---- random histories
 	rnd := vfNewRand(out.Seed)
